@@ -60,9 +60,19 @@ fn apply(rng: &mut Rng, ms: &mut [&mut M], all_init: bool) {
     for k in 0..n { let a = if k < 40 { pc.wrapping_add(k as u16) } else if rng.bool() { pc.wrapping_add(rng.range(-200, 200) as u16) } else { boundary_addr(rng) }; let v = if rng.chance(2, 3) { biased_word(rng) } else { boundary_addr(rng) }; edits.push((a, v, all_init || rng.chance(5, 6))); }
     let regs: Vec<(u16, bool)> = (0..8).map(|_| (if rng.chance(2, 3) { boundary_addr(rng) } else { rng.u16() }, all_init || rng.chance(3, 4))).collect();
     let ssp = *rng.pick(&[0x3000u16, 0x2F00, 0x0400]);
+    // sometimes PC / MCR / PSR are additionally mapped at spare ports, and the code starts with a store to such a port
+    let extra: Option<(u16, InternalRegister)> = if rng.chance(1, 3) { Some((*rng.pick(&[0xFFFFu16, 0xFE10, 0xFFFA]), *rng.pick(&[InternalRegister::PC, InternalRegister::PC, InternalRegister::MCR, InternalRegister::PSR]))) } else { None };
+    let directed = extra.is_some() && rng.chance(2, 3);
+    let dval = if rng.bool() { boundary_addr(rng) } else { 0x3000 + rng.below(0x400) as u16 };
     for m in ms.iter_mut() {
         for (a, v, init) in &edits { if *a < 0xFE00 { if *init { m.sim.mem[*a] = Word::new_init(*v); } else { let mut x = *v; m.sim.mem[*a] = Word::new_uninit(&mut x); } } }
         for (i, (v, init)) in regs.iter().enumerate() { if *init { m.sim.reg_file[reg(i)].set(*v); } else { let mut x = *v; m.sim.reg_file[reg(i)] = Word::new_uninit(&mut x); } }
+        if let Some((port, r)) = extra {
+            let _ = m.sim.mmap_internal(port, r);
+            if directed { // STR R3, R2, #0 with R2 = port, R3 = value
+                m.sim.mem[pc] = Word::new_init(0x7680); m.sim.reg_file[reg(2)].set(port); m.sim.reg_file[reg(3)].set(dval);
+            }
+        }
         m.sim.pc = pc;
         m.sim.write_mem(0xFFFC, Word::new_init(psr), priv_ctx()).unwrap();
         m.sim.write_mem(SP_PORT, Word::new_init(ssp), priv_ctx()).unwrap();
